@@ -271,8 +271,53 @@ def c06_after_solve(case):
 # C07 / C08 / C09 / C17 / C20 on the Evolvent class
 # ---------------------------------------------------------------------------------------------
 def evolvent_of(case):
+    """the Evolvent of a case; case['prehistory'] (optional) is a list of earlier operations on the same object:
+    ('other_bounds', lo, hi) construct with these bounds and SetBounds to the case's afterwards; ('default_bounds',) construct
+    without bounds and SetBounds; ('img', x); ('inv'|'pre', y, dtype) with dtype in int|float32|float64|list"""
+    import numpy as np
     from iOpt.evolvent.evolvent import Evolvent
-    return Evolvent(case['lo'], case['hi'], case['n'], case['m'])
+    pre = case.get('prehistory') or []
+    n, m = case['n'], case['m']
+    first = pre[0] if pre else None
+    if first and first[0] == 'other_bounds':
+        ev = Evolvent(first[1], first[2], n, m)
+    elif first and first[0] == 'default_bounds':
+        ev = Evolvent(numberOfFloatVariables=n, evolventDensity=m)
+    else:
+        ev = Evolvent(case['lo'], case['hi'], n, m)
+    for op in pre:
+        if op[0] == 'img':
+            ev.GetImage(op[1])
+        elif op[0] in ('inv', 'pre'):
+            y = op[1]
+            arg = {'int': lambda: [int(v) for v in y], 'list': lambda: [float(v) for v in y], 'float32': lambda: np.array(y, dtype=np.float32),
+                   'float64': lambda: np.array(y, dtype=np.double)}[op[2]]()
+            (ev.GetInverseImage if op[0] == 'inv' else ev.GetPreimages)(arg)
+    if first and first[0] in ('other_bounds', 'default_bounds'):
+        ev.SetBounds(case['lo'], case['hi'])
+    return ev
+
+
+def random_prehistory(rng, n, lo, hi):
+    k = rng.random()
+    if k < 0.4:
+        return []
+    y = [a + (b - a) * rng.random() for a, b in zip(lo, hi)]
+    ops = []
+    if k < 0.55:
+        lo2 = [a - rng.choice([0.5, 1, 3]) for a in lo]; hi2 = [b + rng.choice([0.25, 1, 2]) for b in hi]
+        ops.append(('other_bounds', lo2, hi2))
+    elif k < 0.62:
+        ops.append(('default_bounds',))
+    for _ in range(rng.randint(1, 3)):
+        q = rng.random()
+        if q < 0.4:
+            ops.append(('img', rng.choice([0.0, 1.0, 0.5, rng.random()])))
+        else:
+            ops.append((rng.choice(['inv', 'pre']), y if rng.random() < 0.7 else [0] * n, rng.choice(['int', 'list', 'float32', 'float64', 'float64'])))
+    if ops and ops[0][0] == 'default_bounds':
+        ops = [ops[0]]   # nothing can be queried before bounds exist
+    return ops
 
 
 def c07_point(case):
@@ -300,11 +345,10 @@ def c07_point(case):
     return fails
 
 
-def c07_cells(n, m, lo=None, hi=None):
+def c07_cells(n, m, lo=None, hi=None, prehistory=None):
     """exhaustive: 2^(n*m) subintervals -> distinct cell centres, all cells reached"""
-    from iOpt.evolvent.evolvent import Evolvent
     lo = lo or [0.0] * n; hi = hi or [1.0] * n
-    ev = Evolvent(lo, hi, n, m)
+    ev = evolvent_of({'n': n, 'm': m, 'lo': lo, 'hi': hi, 'prehistory': prehistory})
     K = 2 ** (n * m)
     cells = []
     for i in range(K):
@@ -391,9 +435,16 @@ def c17_history(case):
                 fails.append('op %d GetImage(%r)=%r on a used object, %r on a fresh one' % (k, op[1], list(got), list(exp))); break
             kept.append((got, [float(v) for v in got], k))
         else:
-            arg = np_array(op[1]); arg0 = arg.copy()
+            import numpy as np
+            dt = op[2] if len(op) > 2 else 'float64'
+            mk = {'int': lambda: [int(round(v)) for v in op[1]], 'list': lambda: [float(v) for v in op[1]],
+                  'float32': lambda: np.array(op[1], dtype=np.float32), 'float64': lambda: np_array(op[1])}[dt]
+            arg = mk(); arg0 = list(arg)
             fn = (ev.GetInverseImage, fresh.GetInverseImage) if op[0] == 'inv' else (ev.GetPreimages, fresh.GetPreimages)
-            got = fn[0](arg); exp = fn[1](np_array(op[1]))
+            got = fn[0](arg); exp = fn[1](mk())
+            ref = fresh.__class__(lo, hi, n, m).GetInverseImage(np_array([float(v) for v in arg0]))
+            if dt != 'float64' and got != ref:
+                fails.append('op %d %s(%r as %s)=%r but the same point as float64 gives %r' % (k, op[0], arg0, dt, got, ref)); break
             if got != exp:
                 fails.append('op %d %s(%r)=%r on a used object, %r on a fresh one' % (k, op[0], op[1], got, exp)); break
             if list(arg) != list(arg0):
